@@ -23,7 +23,7 @@ GEN = LEAN + "/S2/Generated"
 WORK = A.work
 MREPO = WORK + "/mrepo"
 ENV = dict(os.environ, GOFLAGS="-mod=mod", GOPROXY="off", GOSUMDB="off", GOTOOLCHAIN="local")
-TIES = ["S2Proofs.Ties.C07_Relate", "S2Proofs.Ties.C07_RelatePins", "S2Proofs.Ties.C05_Regions", "S2Proofs.Ties.C05_RegionsPins",
+TIES = ["S2Proofs.Ties.C07_Relate", "S2Proofs.Ties.C07_RelatePins", "S2Proofs.Ties.C05_Regions", "S2Proofs.Ties.C05_RegionsPins", "S2Proofs.Ties.C05_Cap",
         "S2Proofs.Ties.C10_Regions", "S2Proofs.Ties.C10_RegionsPins"]
 HERE = os.path.dirname(os.path.abspath(__file__))
 MUTS = json.load(open(HERE + "/muts.json"))
